@@ -31,15 +31,15 @@ type fillClass struct {
 }
 
 var fillClasses = []fillClass{
-	{"ddd-00", []byte{0x00}},                             // \000: four characters per octet
-	{"ddd-ff", []byte{0xff}},                             // \255 (also the octet that looks like a pointer)
-	{"ddd-7f", []byte{0x7f}},                             // \127, the first non-printing octet above '~'
-	{"quote", []byte{'"'}},                               // two characters per octet in strings and names
-	{"backslash", []byte{'\\'}},                          // two characters; escaped again by the octet-string fields
-	{"dot", []byte{'.'}},                                 // special in names only
-	{"special", []byte(" ;()@$',")},                      // the other characters some printer escapes (names, alpn)
+	{"ddd-00", []byte{0x00}},        // \000: four characters per octet
+	{"ddd-ff", []byte{0xff}},        // \255 (also the octet that looks like a pointer)
+	{"ddd-7f", []byte{0x7f}},        // \127, the first non-printing octet above '~'
+	{"quote", []byte{'"'}},          // two characters per octet in strings and names
+	{"backslash", []byte{'\\'}},     // two characters; escaped again by the octet-string fields
+	{"dot", []byte{'.'}},            // special in names only
+	{"special", []byte(" ;()@$',")}, // the other characters some printer escapes (names, alpn)
 	{"mixed", []byte{'a', 0x00, '"', 0xff, '\\', '.', '1', 0x1f, 0x7e, 0x80}}, // escapes of every width next to digits and letters
-	{"plain", []byte{'a'}},                               // control: no expansion
+	{"plain", []byte{'a'}}, // control: no expansion
 }
 
 func (fc fillClass) fill(n int) []byte {
@@ -333,7 +333,7 @@ func eachPointerExpansion(emit func(wireCase)) {
 		}
 	}
 	// the largest message: the RDATA of one HIP record is 32 K pointers
-	put(fillClasses[8], true, "hip-servers", 65534) // 127 one-octet labels of letters
+	put(fillClasses[8], true, "hip-servers", 65534)  // 127 one-octet labels of letters
 	put(fillClasses[0], false, "hip-servers", 65534) // four labels of NUL octets: the most text per pointer
 	if pbt.Thorough() {
 		for _, fc := range fillClasses {
